@@ -185,6 +185,11 @@ def build_cases(ctx, rng, rules, genes):
         scene = random_big_scene(rng)
         ruleset = scale_rules(rng, make_ruleset(rng, rules, rng.choice([1, 2, 3])))
         cases.append({"scene": scene, "rules": ruleset, "scale": rng.choice([1, 1000]), "sampled": True})
+    # rings with genes in two exons (a core may start or end with an intron, the origin may lie inside one)
+    for _ in range(300 if ctx.quick else 8000):
+        scene = random_big_scene(rng, spliced=True)
+        ruleset = scale_rules(rng, make_ruleset(rng, rules, rng.choice([1, 2, 3])))
+        cases.append({"scene": scene, "rules": ruleset, "scale": rng.choice([1, 1000]), "sampled": True})
     return cases
 
 
